@@ -25,13 +25,16 @@ type Reply struct {
 	Status    int    // HTTP status (0 = 200)
 	Header    http.Header
 	Body      []byte
-	Err       error  // transport error instead of a response
-	BodyErrAt int    // >0: body read fails after this many bytes
-	Stream    int64  // >0: body is this many zero bytes, streamed
-	Hang      bool   // block until the request context is done
-	Panic     any    // panic with this value inside RoundTrip
-	Before    func() // runs before the reply is produced (e.g. cancel the caller)
-	Meta      any    // free-form, kept in the event
+	Err       error // transport error instead of a response
+	BodyErrAt int   // >0: body read fails after this many bytes
+	Stream    int64 // >0: body is this many zero bytes, streamed
+	// ContentLength != 0 is announced as the response's length whatever the
+	// body really holds (0 announces "unknown")
+	ContentLength int64
+	Hang          bool   // block until the request context is done
+	Panic         any    // panic with this value inside RoundTrip
+	Before        func() // runs before the reply is produced (e.g. cancel the caller)
+	Meta          any    // free-form, kept in the event
 }
 
 // Handler produces the reply for one request.
@@ -283,8 +286,15 @@ func (s *Sim) RoundTrip(hr *http.Request) (resp *http.Response, err error) {
 	return &http.Response{
 		StatusCode: st, Status: fmt.Sprintf("%d %s", st, http.StatusText(st)),
 		Proto: "HTTP/1.1", ProtoMajor: 1, ProtoMinor: 1,
-		Header: hdrOrEmpty(rep.Header), Body: rc, ContentLength: -1, Request: hr,
+		Header: hdrOrEmpty(rep.Header), Body: rc, ContentLength: contentLength(rep), Request: hr,
 	}, nil
+}
+
+func contentLength(rep Reply) int64 {
+	if rep.ContentLength != 0 {
+		return rep.ContentLength
+	}
+	return -1
 }
 
 // Barrier holds requests at entry until released.
